@@ -268,7 +268,8 @@ func runScript(sc *Scenario, ro runOpts) *runResult {
 			}
 			// clean-up bound: once the last client is done, every background task must exit by
 			// max(t_ret+d) + 1s + 3p + 3T + jitter (+ injected stalls) -- DESIGN §3 C14
-			if vsim.ClientFinished() == len(sc.Clients) {
+			lastClient := vsim.ClientFinished() == len(sc.Clients)
+			if lastClient && !sc.NoDrain {
 				if end := vsim.NoteMax(0); end > 0 {
 					vsim.SetWorldVLimit(end + int64(time.Second) + 3*p + 3*tickNs + 2*cfg.Jitter + 2*cfg.StallMax + 8*cfg.SyncStallMax + (400+2*schedSlack)*maxCost)
 				}
@@ -292,6 +293,9 @@ func runScript(sc *Scenario, ro runOpts) *runResult {
 						recs[i].KeptBad = fmt.Sprintf("retained match changed: was %s now %s", clip(k.canon), clip(sb.String()))
 					}
 				}
+			}
+			if sc.NoDrain && lastClient {
+				vsim.RequestStop()
 			}
 		})
 	}
